@@ -39,7 +39,7 @@ class C18(Prop):
         else:
             sess = community_session(rng, ver)
             agent["communities"] = [sess["community"]]
-        T = rng.choice([50_000_000, 200_000_000, 1_000_000_000, 1_500_000_000, 2_500_000_000, 10_000_000_000])
+        T = rng.choice([50_000_000, 200_000_000, 1_000_000_000, 1_500_000_000, 2_500_000_000, 10_000_000_000, 50_000_000, 1_000_000_000, 5_000_000, 123_456_789, 999_999_500, 3_600_000_000_000])
         sess["timeout_ns"] = T
         if family == "two-sessions":
             # two sessions of one process with different timeouts, each seeing stray datagrams
